@@ -223,7 +223,20 @@ def run(repo: Repo, rep: Report, tier: str) -> None:
     from sa.flatten import flatten as _flgen
 
     # the comparison step may have been extracted into a helper of the class (`if self._differs_from_existing(...)`): write it out
-    gen = _flgen(gen, select=lambda h: any(isinstance(c.func, ast.Attribute) and c.func.attr == "_show_diffs" for c in calls_in(h.node)))
+    # ... and so may the preparation of the output tree (removal of the old package, mkdirs, ancestor __init__.py loops): helpers of the
+    # generator class that do that are written out too, and are then judged as part of generate() - not as functions of their own
+    written_out: Set[str] = set()
+
+    def _sel(h) -> bool:
+        hit = any(isinstance(c.func, ast.Attribute) and c.func.attr == "_show_diffs" for c in calls_in(h.node)) or (
+            h.cls is not None and h.cls.name == gen.qualname.split(".")[0] and h.name.startswith("_") and (
+                any(dotted(c.func) == "shutil.rmtree" for c in calls_in(h.node)) or any(
+                    isinstance(w_, ast.While) and any(isinstance(c.func, ast.Attribute) and c.func.attr == "write_text" for c in calls_in(w_)) for w_ in own_nodes(h.node))))
+        if hit:
+            written_out.add(h.fq)
+        return hit
+
+    gen = _flgen(gen, select=_sel)
     sw, atoms, ex_atoms = find_mode_switch(gen)  # type: ignore[misc]
     # the output-package variable: the one whose existence the mode switch tests (when several: the one that is later removed)
     rm_targets = {_root_name(c.args[0]) for c in calls_in(gen.node) if dotted(c.func) == "shutil.rmtree" and c.args}
@@ -389,6 +402,8 @@ def run(repo: Repo, rep: Report, tier: str) -> None:
         for fn in mod.functions.values():
             if fn.fq == gen.fq:
                 fn = gen  # the same function object the branch analysis above works on (possibly with the diff helper written out)
+            elif fn.fq in written_out and getattr(gen, "flattened", False):
+                continue  # judged where it was written out (inside generate)
             if "<locals>" in fn.qualname:
                 continue
             p = None
@@ -490,7 +505,7 @@ def run(repo: Repo, rep: Report, tier: str) -> None:
     rep.require(any(k == "shutil.rmtree" for _, _, k, _ in destructive_seen), "R10.3: rmtree(out_dir) vanished (anchor)")
     # ancestor __init__ loops
     n_loops = 0
-    for w in [n for n in own_nodes(gen.node) if isinstance(n, ast.While)]:
+    for w in [n for n in own_nodes(gen.node) if isinstance(n, ast.While) and not isinstance(n.test, ast.Constant)]:  # (not the one-shot `while True:` of a written-out helper)
         writes = [c for c in calls_in(w) if isinstance(c.func, ast.Attribute) and c.func.attr == "write_text"]
         if not writes:
             continue
